@@ -79,7 +79,7 @@ pub fn tracegen_only(prop: &str, seed: u64, runs: usize, only: Option<usize>) ->
                 prop,
                 run,
                 s,
-                Knobs { allow_random: true, p_reset: if run % 4 == 1 { 0.2 } else { 0.12 }, big_consts: run % 3 == 0, max_virtuals: if run % 4 == 1 { 2 } else { 1 }, random_in_declares: run % 4 == 1, p_x: 0.05, p_c: 0.05, max_depth: 3, p_while: 0.04,
+                Knobs { allow_random: true, p_reset: if run % 4 == 1 { 0.2 } else { 0.12 }, big_consts: run % 3 == 0, max_virtuals: if run % 4 == 1 { 2 } else { 1 }, random_in_declares: run % 4 == 1, p_x: 0.05, p_c: 0.05, max_depth: 3, p_while: if run % 2 == 0 { 0.12 } else { 0.04 },
                         ..Knobs::control_flow() },
                 Opt::default(),
             ),
@@ -424,10 +424,16 @@ fn width_run(prop: &str, run: usize, seed: u64) -> Vec<J> {
             }
         })
         .collect();
-    let mut supplied = vec![Sig::input("I", wi, Val::N(0)), Sig::bidir("D", wd, Val::Z), Sig::output("O", wo), Sig::output("s", 64)];
+    // every fifth run: ONE header column bound to TWO signals of different widths (the `D_out` column is the expected
+    // column of the bidirectional `D` and the input column of an input that is itself called `D_out`): each of the two
+    // values is reduced to the width of its own signal
+    let double = run % 5 == 2;
+    let iname = if double { "D_out" } else { "I" };
+    let mut supplied = vec![Sig::input(iname, wi, Val::N(0)), Sig::bidir("D", wd, Val::Z), Sig::output("O", wo), Sig::output("s", 64)];
     supplied.shuffle(&mut rng);
-    let mut header: Vec<String> = ["I", "D", "D_out", "O", "V"].iter().map(|s| s.to_string()).collect();
+    let mut header: Vec<String> = (if double { vec!["D", "D_out", "O", "V"] } else { vec!["I", "D", "D_out", "O", "V"] }).iter().map(|s| s.to_string()).collect();
     header.shuffle(&mut rng);
+    let n = header.len();
     let col = |name: &str| header.iter().position(|h| h == name).unwrap();
     let mut prog = vec![Stmt::Declare { name: "V".into(), e: Expr::id("s") }];
     let mut id = 0;
@@ -439,17 +445,17 @@ fn width_run(prop: &str, run: usize, seed: u64) -> Vec<J> {
         let e = Gen::const_of(*v);
         // literal entries can only be non-negative; negative values come through expressions
         let lit = if *v >= 0 { Entry::Num(*v) } else { Entry::Expr(e.clone()) };
-        prog.push(row(vec![lit.clone(); 5]));
-        prog.push(row(vec![Entry::Expr(e.clone()); 5]));
+        prog.push(row(vec![lit.clone(); n]));
+        prog.push(row(vec![Entry::Expr(e.clone()); n]));
         // through a variable (no arithmetic here: overflow behaviour is C08's business)
         prog.push(Stmt::Let { name: "t".into(), e: e.clone() });
-        let mut es = vec![Entry::Expr(Expr::id("t")); 5];
+        let mut es = vec![Entry::Expr(Expr::id("t")); n];
         es[col("D")] = Entry::Z;
         es[col("O")] = Entry::X;
         prog.push(row(es));
         // one bit per column, whatever the column's width and the argument's sign
-        prog.push(row(vec![Entry::Bits(5, Expr::id("t"))]));
-        prog.push(row(vec![Entry::Bits(2, Expr::bin("-", Expr::num(0), Expr::id("t"))), Entry::Bits(3, Expr::un("~", Expr::id("t")))]));
+        prog.push(row(vec![Entry::Bits(n as u8, Expr::id("t"))]));
+        prog.push(row(vec![Entry::Bits(2, Expr::bin("-", Expr::num(0), Expr::id("t"))), Entry::Bits((n - 2) as u8, Expr::un("~", Expr::id("t")))]));
     }
     let test = Test { header: header.clone(), supplied, prog };
     let layout = choose_layout(Lay::Mixed, seed, &mut rng);
